@@ -36,8 +36,20 @@ def run_stream(tag, batch_lines, model_mode="trace", model_arg=None, jobs=12):
     impl, model, names, st = corr.run_batch(batch_lines, tag, jobs=jobs, model_mode=model_mode, model_arg=model_arg)
     progs = corr.split_programs(batch_lines)
     diffs = corr.compare(impl, model, names) if model_mode in ("trace", "predict") else []
+    # Known finding F19 (decided by C14, which looks for exactly this): an execution that ends while a task is suspended
+    # in the middle of a panic leaves the OS thread's panic count raised, so the *following* executions of the same run
+    # behave differently from the model, whose executions always start in a fresh world.  Those programs say nothing
+    # about this stream's correspondence; they are counted, not compared.
+    leaky = set()
+    for d in diffs:
+        ex = executions(impl.get(d[0], []))
+        if any(any(l == "P panic" for l in e["lines"]) and not (e["end"] or "").startswith("E fail") for e in ex[:-1]):
+            leaky.add(d[0])
+    diffs = [d for d in diffs if d[0] not in leaky]
+    stats = corr.stats(impl)
+    stats["not_compared_after_abandoned_panic_F19"] = len(leaky)
     return {"impl": impl, "model": model, "names": names, "st": st, "progs": progs, "diffs": diffs,
-            "stats": corr.stats(impl)}
+            "stats": stats}
 
 
 def executions(lines):
